@@ -104,7 +104,13 @@ def observe (sync : Bool) (evs : List Ev) : Obs :=
       if ev.arg == "rd" then (if o.rdHolder.isSome then { o with violation := o.violation <|> some "two threads inside the trajectory reader" } else { o with rdHolder := some ev.tid })
       else match roleIdx "out" ev.arg with
         | some i => { o with outHolder := (i, ev.tid) :: o.outHolder.filter (·.1 != i) }
-        | none => if ev.arg == "mg" then { o with outHolder := (1000, ev.tid) :: o.outHolder.filter (·.1 != 1000) } else o
+        | none =>
+          if ev.arg == "mg" then
+            -- any mutex that is not the reader mutex or a ring token guards a merge: a second thread entering while one is inside is
+            -- two threads in MergeWorker at once (also when each of them locked a mutex of its own)
+            let o1 := if o.outHolder.any (fun (q : Nat × Nat) => q.1 == 1000 && q.2 != ev.tid) then { o with violation := o.violation <|> some "two threads inside the unordered merge section" } else o
+            { o1 with outHolder := (1000, ev.tid) :: o1.outHolder.filter (·.1 != 1000) }
+          else o
     | "U" =>
       if ev.arg == "rd" then { o with rdHolder := none }
       else match roleIdx "out" ev.arg with
